@@ -655,3 +655,23 @@ def pi4_decision_structure(ctx, vcfg):
             good = SP.all_eq(o[..., i * w : (i + 1) * w], P(o1.value)[..., k * w : (k + 1) * w])
         ctx.ensure("decision_i_from_y_i_and_parity", good)
     ctx.ensure("state_unchanged_in_eval", _state_is_reset(dem))
+
+
+# ================================================================================================ input representation (bounded)
+@obligation("C05.input_dtypes", function="; ".join(FN[k][0] for k in FN), configs=lambda tier: mods.catalogue(tier, max_points=256 if tier == "thorough" else 64), kind="custom", engine="standin")
+def input_dtypes(spec, cfg, tier, seed):
+    """bounded: modulator(bits) for bits carried as int64, int32, uint8, bool, float64, float16 equals the float32 result whenever it
+    returns (contracts/dtypes.py); fresh pair in eval() per call; layouts (2, 3 symbols) and (1, 4 symbols) - batched, so that the
+    1-D 'indices or bits' heuristics of the differential / alternating modulators are not involved"""
+    from . import dtypes as DT
+
+    b = mods.bits_per_symbol(cfg)
+    rng = DT.rng_for(cfg, seed, "c05")
+    g = torch.Generator().manual_seed(rng.getrandbits(40))
+    cases = []
+    for shape in ((2, 3 * b), (1, 4 * b), (3, 2 * b)):
+        for _ in range(2):
+            bits = torch.randint(0, 2, shape, generator=g).float()
+            cases.append((f"modulate bits{shape}", lambda: fresh_pair(cfg)[0].forward, (bits,)))
+        cases.append((f"modulate all-ones bits{shape}", lambda: fresh_pair(cfg)[0].forward, (torch.ones(shape),)))
+    return DT.run("C05", spec, cfg, tier, seed, cases, DT.BIT_DTYPES, "modulation of batched bit rows (2x3, 1x4, 3x2 symbols)")
